@@ -36,10 +36,18 @@ func (p *BinaryProtocol) SkipNative(fieldType Type, maxDepth int) (err error) {
 	}
 	fsm := types.NewTStateMachine()
 	ret := native.TBSkip(fsm, &p.Buf[p.Read], left, uint8(fieldType))
+	types.FreeTStateMachine(fsm)
 	if ret < 0 {
-		return
+		// native/thrift_skip.c: ETAG -1, EEOF -2, ESTACK -3
+		switch ret {
+		case -2:
+			return io.EOF
+		case -3:
+			return errExceedDepthLimit
+		default:
+			return errInvalidDataType
+		}
 	}
 	p.Read += int(ret)
-	types.FreeTStateMachine(fsm)
 	return nil
 }
